@@ -376,3 +376,158 @@ def gen_chain(rng, n, flavour):
         # k_i additionally refers back to k_j (j <= i): a cycle of length i - j + 1
         defs[i] = ("C", 0, "k%d" % i, ("+", defs[i][3], ("r", 0, ["k%d" % j])))
     return defs
+
+
+# ----------------------------------------------------------------------------- conditional assembly (#if arms)
+# A conditional program is a list of ITEMS: a node as above, or
+#   ("I", [(condition text, truth value, items), ...], else-items or None)      `#if c {..} #elif c {..} #else {..}`
+# The truth values are known by construction (literal conditions, or comparisons with constants `q<i> = <i>`
+# whose values the generator fixes), so the SELECTED WORLD - taken arms inlined in place, everything else
+# deleted - is computed here without evaluating anything.
+def render_items(items, indent=0):
+    pad = "    " * indent
+    lines = []
+    for it in items:
+        if it[0] != "I":
+            lines.append(pad + render_node(it))
+            continue
+        for j, (cond, _, body) in enumerate(it[1]):
+            lines.append(pad + ("#if " if j == 0 else "#elif ") + cond)
+            lines.append(pad + "{")
+            lines += render_items(body, indent + 1)
+            lines.append(pad + "}")
+        if it[2] is not None:
+            lines.append(pad + "#else")
+            lines.append(pad + "{")
+            lines += render_items(it[2], indent + 1)
+            lines.append(pad + "}")
+    return lines
+
+
+def render_cond(items):
+    return "\n".join(render_items(items)) + "\n"
+
+
+_if_counter = [0]
+
+
+def select_world(items, path=()):
+    """[(node, arm path)]: the arm path lists the (if identity, arm index) pairs enclosing the node"""
+    out = []
+    for idx, it in enumerate(items):
+        if it[0] != "I":
+            out.append((it, path))
+            continue
+        taken = None
+        for j, (_, val, body) in enumerate(it[1]):
+            if val:
+                taken = (j, body)
+                break
+        if taken is None and it[2] is not None:
+            taken = (len(it[1]), it[2])
+        if taken is not None:
+            out += select_world(taken[1], path + ((id(it), taken[0]),))
+    return out
+
+
+def f55_exact(world):
+    """class nested_symbol_across_if (finding F55), as tools/c16_gen.py states it: in the selected world a symbol with
+    k > 0 dots one of whose k lexical parents was declared inside an #if arm that does not enclose the symbol
+    (the symbol FOLLOWS the block that declares part of its parent chain).  When no declaration of the world is in
+    this class, collecting the declarations round by round (an arm's content one round after its condition is
+    decided) gives every declaration the parent it has in the inlined world, so the two must agree."""
+    chain = []
+    for n, path in world:
+        if n[0] in ("L", "C"):
+            lvl = n[1]
+            if lvl > len(chain):
+                return False
+            for (_, pp) in chain[:lvl]:
+                if pp != path[:len(pp)]:
+                    return True
+            chain = chain[:lvl] + [(n, path)]
+    return False
+
+
+COND_TRUE = ["true", "1 == 1", "q1 == 1"]
+COND_FALSE = ["false", "1 == 2", "q1 == 2"]
+
+
+def gen_cond_program(rng, stages=True):
+    """a declaration tree with 1..3 references, random segments of it (nested up to 3 deep) moved into the taken
+    arm of #if / #elif / #else constructs with decoy arms; conditions literal or over constants q1 (unconditional),
+    q2 (declared inside a taken arm: its readers are decided one round later), q3 (inside an arm guarded by q2)."""
+    err = rng.weighted([(None, 14), ("dup", 1), ("skip", 1)])
+    nodes = gen_tree(rng, rng.range(3, 10), err=err)
+    paths = tree_paths(nodes, rng, extra=1)
+    for _ in range(rng.range(1, 3)):
+        pos = rng.below(len(nodes) + 1)
+        nodes = nodes[:pos] + [("D", 8, ("r", rng.weighted([(0, 3), (1, 4), (2, 3), (3, 1)]), rng.choice(paths)))] + nodes[pos:]
+    t_conds, f_conds = list(COND_TRUE), list(COND_FALSE)
+    prelude = [("C", 0, "q1", ("l", 1))]
+    if stages and rng.chance(0.6):
+        prelude.append(("I", [(rng.choice(["true", "q1 == 1"]), True, [("C", 0, "q2", ("l", 2))])], None))
+        t_conds.append("q2 == 2")
+        f_conds.append("q2 == 7")
+        if rng.chance(0.5):
+            prelude.append(("I", [("q2 == 3", False, [("C", 0, "q3", ("l", 4))])], [("C", 0, "q3", ("l", 3))]))
+            t_conds.append("q3 == 3")
+            f_conds.append("q3 == 4")
+
+    def decoy():
+        out = []
+        for _ in range(rng.range(1, 3)):
+            k = rng.below(4)
+            if k == 0:
+                out.append(("D", 8, ("l", 238)))
+            elif k == 1:
+                out.append(("L", rng.below(3), rng.choice(GLOBALS + LOCALS)))
+            elif k == 2:
+                out.append(("C", rng.below(3), rng.choice(GLOBALS + LOCALS), ("l", 99)))
+            else:
+                out.append(("D", 8, ("r", rng.below(3), [rng.choice(LOCALS)])))
+        return out
+
+    def make_if(seg):
+        T, F = (lambda: rng.choice(t_conds)), (lambda: rng.choice(f_conds))
+        shape = rng.below(6)
+        if shape == 0:
+            return [("I", [(T(), True, seg)], None)]
+        if shape == 1:
+            return [("I", [(F(), False, decoy())], seg)]
+        if shape == 2:
+            return [("I", [(F(), False, decoy()), (T(), True, seg)], decoy() if rng.chance(0.5) else None)]
+        if shape == 3:
+            return [("I", [(T(), True, seg)], decoy())]
+        if shape == 4:
+            return [("I", [(T(), True, seg), (T(), True, decoy())], None)]
+        return [("I", [(F(), False, decoy())], None)] + seg          # nothing selected, the segment stays outside
+
+    def wrap(items, depth):
+        out, i = [], 0
+        while i < len(items):
+            if depth < 3 and rng.chance(0.3 if depth == 0 else 0.25):
+                j = i + rng.range(1, min(4, len(items) - i))
+                out += make_if(wrap(items[i:j], depth + 1))
+                i = j
+            else:
+                out.append(items[i])
+                i += 1
+        return out
+
+    items = prelude + wrap(nodes, 0)
+    if not any(it[0] == "I" for it in items):
+        items = prelude + make_if(nodes[:1]) + nodes[1:]
+    return items
+
+
+def count_ifs(items):
+    n = 0
+    for it in items:
+        if it[0] == "I":
+            n += 1
+            for (_, _, body) in it[1]:
+                n += count_ifs(body)
+            if it[2] is not None:
+                n += count_ifs(it[2])
+    return n
